@@ -790,7 +790,56 @@ class SimpleTypes:
             v = env.get(t.func.value.id)
             if isinstance(v, tuple) and v[0] == "lex" and isinstance(t.args[0], ast.Constant):
                 return getattr(v[1].text, t.func.attr)(t.args[0].value)
+        # a regular-expression test of the lexical value: `P.match(s)`, `re.match(p, s)` (also fullmatch / search), on its own or
+        # compared with None; P a module- or class-level `re.compile(<constant>)`
+        if isinstance(t, ast.Compare) and len(t.ops) == 1 and isinstance(t.ops[0], (ast.Is, ast.IsNot)) \
+                and isinstance(t.comparators[0], ast.Constant) and t.comparators[0].value is None and isinstance(t.left, ast.Call):
+            m = self._lex_regex(t.left, f, cls, env)
+            if m is not None:
+                return (not m[0]) if isinstance(t.ops[0], ast.Is) else m[0]
+        if isinstance(t, ast.Call):
+            m = self._lex_regex(t, f, cls, env)
+            if m is not None:
+                return m[0]
         raise AnalysisError("%s:%d condition not understood in convert_from_xml: %s" % (f.file, t.lineno, ast.unparse(t)))
+
+    def _lex_regex(self, c, f, cls, env):
+        """(matched?,) for a regex test call on a lexical sample, None when `c` is not one"""
+        import re as _re
+
+        if not (isinstance(c.func, ast.Attribute) and c.func.attr in ("match", "fullmatch", "search")):
+            return None
+        recv = c.func.value
+        if isinstance(recv, ast.Name) and recv.id == "re" and len(c.args) >= 2:
+            pat, subj = self.prog.const(c.args[0], f.module, None, cls), c.args[1]
+        elif len(c.args) >= 1:
+            node = None
+            if isinstance(recv, ast.Name):
+                node = f.module.assigns.get(recv.id)
+            elif isinstance(recv, ast.Attribute):
+                owner = None
+                if isinstance(recv.value, ast.Name) and recv.value.id in ("self", "cls"):
+                    owner = cls
+                elif isinstance(recv.value, ast.Name):
+                    r_ = self.prog.resolve(f.module, recv.value.id)
+                    owner = r_ if hasattr(r_, "methods") else None
+                a = self.prog.lookup_attr(owner, recv.attr) if owner is not None else None
+                node = a[1] if a else None
+                if a:
+                    cls = a[0]
+            pat = None
+            if isinstance(node, ast.Call) and dotted(node.func) == "re.compile" and node.args:
+                pat = self.prog.const(node.args[0], cls.module if hasattr(cls, "module") else f.module, None, cls)
+            subj = c.args[0]
+        else:
+            return None
+        sv = env.get(subj.id) if isinstance(subj, ast.Name) else None
+        if not isinstance(pat, str) or not (isinstance(sv, tuple) and sv[0] == "lex"):
+            return None
+        try:
+            return (getattr(_re, c.func.attr)(pat, sv[1].text) is not None,)
+        except _re.error:
+            return None
 
     def _lex_eval(self, e, f, cls, env, depth):
         """Evaluate on the representative lexeme: ("ok", value-descr) | ("raises", exc)."""
